@@ -18,10 +18,16 @@ for sid in sorted(os.listdir(os.path.join(VERIF, "seeded"))):
         if a.returncode:
             rows.append((sid, prop, "patch does not apply to current HEAD", ""))
             continue
-        r = subprocess.run([os.path.join(VERIF, "check"), prop], capture_output=True, text=True,
-                           env={**os.environ, "VERIF_REPO": wt, "VERIF_EVIDENCE_DIR": f"/tmp/runseed-ev-{sid}/evidence"})
-        verdict = {0: "MISSED (held)", 1: "caught (VIOLATION)", 2: "inconclusive"}.get(r.returncode, f"exit {r.returncode}")
-        first = next((l[2:160] for l in r.stdout.splitlines() if l.startswith("# ")), "")
+        seeds = os.environ.get("SEEDS", "0").split()
+        codes, first = [], ""
+        for sd in seeds:
+            r = subprocess.run([os.path.join(VERIF, "check"), prop], capture_output=True, text=True,
+                               env={**os.environ, "VERIF_SEED": sd, "VERIF_REPO": wt, "VERIF_NO_FLOORS": "1", "VERIF_EVIDENCE_DIR": f"/tmp/runseed-ev-{sid}/evidence"})
+            codes.append(r.returncode)
+            first = first or next((l[2:160] for l in r.stdout.splitlines() if l.startswith("# ")), "")
+        n1 = sum(1 for c in codes if c == 1)
+        verdict = (f"caught (VIOLATION) {n1}/{len(codes)} seeds" if n1 == len(codes) else f"caught {n1}/{len(codes)} seeds, others: {sorted(set(c for c in codes if c != 1))}" if n1
+                   else {0: "MISSED (held)", 2: "inconclusive"}.get(codes[0], f"exit {codes[0]}"))
         rows.append((sid, prop, verdict, first.replace("|", "/")))
         print(rows[-1], flush=True)
     finally:
